@@ -49,6 +49,8 @@ AT_LIMIT = {
     "magic-consts.js": ("javascript", _TS_CONSTS.replace(": number", ""), None),
     "cqs-fluent.ts": ("typescript", _CQS_FLUENT, None),
     "cqs-fluent.py": ("python", _CQS_FLUENT_PY, None),
+    # an extension-less script: its language comes from the shebang line
+    "tool": ("python", "#!/usr/bin/env python3\ndef f(x):\n    print(x)\n    return x * 4242\n", None),
     "unwrap-with-tests.rs": ("rust", _RS_TESTS, None),
     "tokio-net.rs": ("rust", "use tokio::net::TcpStream;\n\nasync fn connect() {\n    let s = TcpStream::connect(\"127.0.0.1:80\").await;\n    drop(s);\n}\n\n"
                              "async fn nap() {\n    std::thread::sleep(std::time::Duration::from_secs(1));\n}\n", None),
@@ -142,6 +144,8 @@ def h_edits(ctx):
     new = None
     if edit in ("insert-blank", "insert-indented-blank", "insert-comment", "insert-non-ascii-comment", "insert-comment-with-old-code", "two-edits"):
         q = ctx.pick("insert_before_line", tuple(range(1, n + 2)))
+        if q == 1 and lines[0].startswith("#!"):
+            ctx.assume(False)      # a line above the shebang is not a meaning-preserving edit (the shebang must come first)
         if tname == "dup" and 2 < q <= n:
             ctx.assume(False)      # a line inserted inside a reported duplicate block changes the block itself
         # keep the inserted line between statements: same indentation as the following line
@@ -173,6 +177,8 @@ def h_edits(ctx):
     elif edit == "crlf":
         new = "\r\n".join(lines) + "\r\n"
     elif edit == "bom":
+        if lines[0].startswith("#!"):
+            ctx.assume(False)      # a byte-order mark before a shebang stops it being one
         new = "﻿" + text
         with_col = False     # column of a finding on line 1 may legitimately move by the BOM
     elif edit == "rename-locals":
